@@ -32,6 +32,8 @@ func runPure(kind string, seed uint64, rep *caseReporter) {
 		numchk.CheckCoins(r, rep)
 	case "deccoins":
 		numchk.CheckDecCoins(r, rep)
+	case "extra":
+		numchk.CheckExtra(r, rep)
 	}
 }
 
@@ -41,7 +43,7 @@ func runC18(c *Ctx) {
 		n = 40000000
 	}
 	master := sim.NewRand(c.Seed ^ hashStr("C18"))
-	kinds := []string{"int", "uint", "dec", "dec", "dec", "coins", "coins", "deccoins"}
+	kinds := []string{"int", "uint", "dec", "dec", "dec", "coins", "coins", "deccoins", "extra", "extra"}
 	per := n / c.Of
 	for i := 0; i < per; i++ {
 		seed := master.U64() ^ uint64(c.Shard)*0x9E3779B97F4A7C15
